@@ -176,6 +176,17 @@ fn gen_io(tier: Tier, f: &mut dyn FnMut(IoCase) -> bool) {
                     }
                 }
             }
+            // (coverage audit) read - skip - read - skip - read in the three size classes a file-backed input distinguishes
+            // (MemoryMappedInput: <= 4 KiB buffered I/O, mmap, >= 1 MiB hugepage candidate) and across the 8 KiB skip chunk
+            // of the std::io-based readers; the value after every skip differs from the bytes skipped
+            let small: Vec<Item> = vec![Item::U32(0x0403_0201), Item::Skip(5), Item::U16(0xA1B2), Item::Skip(0), Item::Var(300), Item::Skip(1), Item::U8(7)];
+            let medium: Vec<Item> = vec![Item::U32(0x0403_0201), Item::Skip(5000), Item::U16(0xA1B2), Item::Raw(9000, 2), Item::Skip(8193), Item::Var(300), Item::Str(3, 0), Item::U8(7)];
+            let large: Vec<Item> = vec![Item::U32(0x0403_0201), Item::Skip(1 << 20), Item::U16(0xA1B2), Item::Skip(70_000), Item::Str(3, 0), Item::Skip(1), Item::U8(7)];
+            for rec in [small, medium, large] {
+                if !f(IoCase { out: out.to_string(), inp: inp.to_string(), items: rec }) {
+                    return;
+                }
+            }
             // one long record: every kind once
             let long: Vec<Item> = pairs.iter().cloned().chain([Item::Str(16384, 1), Item::Var(1 << 63), Item::U8(7)]).collect();
             if !f(IoCase { out: out.to_string(), inp: inp.to_string(), items: long }) {
@@ -632,6 +643,336 @@ fn run_mo(c: &MoCase) -> R {
     Ok(if model.is_empty() { Outcome::trivial("empty") } else { Outcome::pass(if model.len() > c.init { "grown" } else { "fits" }) })
 }
 
+// ---------------------------------------------------------------------------------------------
+// (coverage audit) operation histories on ONE input object: read - skip - read, peek - read, seek - read ...
+// for every input back end and every size class a back end distinguishes
+
+#[derive(Serialize, Deserialize, Hash, Clone, Debug, PartialEq)]
+pub enum HOp {
+    U8,
+    U16,
+    U32,
+    U64,
+    Var,
+    Bytes(usize),
+    Vec(usize),
+    Skip(usize),
+    // MemoryMappedInput only
+    Slice(usize),
+    SliceZc(usize),
+    Peek(usize),
+    PeekZc(usize),
+    /// seek to an absolute position: 0 = start, 1 = 1, 2 = size/2, 3 = size-3 (saturating), 4 = size
+    Seek(u8),
+}
+
+#[derive(Serialize, Deserialize, Hash, Clone, Debug)]
+pub struct HCase {
+    inp: String,
+    size: usize,
+    ops: Vec<HOp>,
+}
+
+/// every byte differs from its neighbours and from the byte 2, 3, 4, 8 places on; no byte has the continuation bit
+/// pattern that would make a var_int longer than 2 bytes
+fn hist_bytes(size: usize) -> Vec<u8> {
+    (0..size).map(|i| if i % 5 == 4 { (i % 97) as u8 + 1 } else { 0x80 | ((i * 7 + i / 128) % 120) as u8 }).collect()
+}
+
+/// a file of `size` history bytes, created once per process and size (the large ones are > 1 MiB)
+fn hist_file(size: usize) -> std::path::PathBuf {
+    use std::collections::HashMap;
+    use std::sync::{Mutex, OnceLock};
+    static FILES: OnceLock<Mutex<HashMap<usize, std::path::PathBuf>>> = OnceLock::new();
+    let mut m = FILES.get_or_init(|| Mutex::new(HashMap::new())).lock().unwrap_or_else(|e| e.into_inner());
+    m.entry(size)
+        .or_insert_with(|| {
+            let p = crate::scratch_file("hist");
+            std::fs::write(&p, hist_bytes(size)).expect("write history file");
+            p
+        })
+        .clone()
+}
+
+const H_INS: &[&str] = &["slice", "reader-cursor", "reader-file", "mmapdata", "mminput", "range-cursor", "reader-streambuf[2]", "reader-zerocopy[8]", "reader-mmapzc"];
+
+fn gen_hist(tier: Tier, f: &mut dyn FnMut(HCase) -> bool) {
+    let fwd = vec![HOp::U8, HOp::U16, HOp::U32, HOp::Var, HOp::Bytes(3), HOp::Vec(2), HOp::Skip(0), HOp::Skip(1), HOp::Skip(3)];
+    let depth = tier.pick(3, 4);
+    for inp in H_INS {
+        // mminput: 40 and 4096 bytes are read with buffered I/O, 4097 is mapped; the others do not care
+        // 5 bytes: most histories run out of input (refused operations must not move / must not be served)
+        let sizes: &[usize] = if *inp == "mminput" { &[40, 5, 4096, 4097] } else { &[40, 5] };
+        for &size in sizes {
+            if !all_strings(&fwd, depth, &mut |o| f(HCase { inp: inp.to_string(), size, ops: o.to_vec() })) {
+                return;
+            }
+        }
+        // long skips (past the 8 KiB scratch buffer of the std::io based readers) between reads, > 1 MiB for the file-backed ones
+        for size in [20_000usize, (1 << 20) + 77] {
+            for ops in [
+                vec![HOp::U16, HOp::Skip(8193), HOp::U32, HOp::Skip(8192), HOp::Var, HOp::Skip(1), HOp::U8],
+                vec![HOp::Skip(16_385), HOp::U64, HOp::Skip(0), HOp::Bytes(5)],
+                vec![HOp::Vec(9000), HOp::Skip(3), HOp::U16, HOp::Skip(10_000), HOp::U8],
+            ] {
+                if !f(HCase { inp: inp.to_string(), size, ops }) {
+                    return;
+                }
+            }
+        }
+    }
+}
+
+fn gen_mmhist(tier: Tier, f: &mut dyn FnMut(HCase) -> bool) {
+    let ops = vec![
+        HOp::U8,
+        HOp::U32,
+        HOp::Slice(3),
+        HOp::SliceZc(2),
+        HOp::Peek(4),
+        HOp::PeekZc(2),
+        HOp::Skip(2),
+        HOp::Skip(0),
+        HOp::Seek(0),
+        HOp::Seek(1),
+        HOp::Seek(2),
+        HOp::Seek(3),
+        HOp::Seek(4),
+    ];
+    let depth = tier.pick(3, 4);
+    // <= 4096: buffered I/O; 4097 / 70 000: standard mapping; > 1 MiB: hugepage candidate
+    for size in [0usize, 7, 4096, 4097, 70_000, (1 << 20) + 77] {
+        if !all_strings(&ops, depth, &mut |o| f(HCase { inp: "mminput".into(), size, ops: o.to_vec() })) {
+            return;
+        }
+    }
+}
+
+use zverif::util::all_strings;
+
+/// what the history object offers beyond DataInput
+trait HistInput: DataInput {
+    fn inherent_position(&self) -> Option<usize> {
+        None
+    }
+    fn mm(&mut self) -> Option<&mut MemoryMappedInput> {
+        None
+    }
+}
+impl<'a> HistInput for SliceDataInput<'a> {
+    fn inherent_position(&self) -> Option<usize> {
+        Some(self.pos())
+    }
+}
+impl<Rd: std::io::Read> HistInput for ReaderDataInput<Rd> {
+    fn inherent_position(&self) -> Option<usize> {
+        Some(self.pos() as usize)
+    }
+}
+impl HistInput for MmapDataInput {
+    fn inherent_position(&self) -> Option<usize> {
+        Some(self.pos())
+    }
+}
+impl HistInput for MemoryMappedInput {
+    fn inherent_position(&self) -> Option<usize> {
+        Some(MemoryMappedInput::position(self))
+    }
+    fn mm(&mut self) -> Option<&mut MemoryMappedInput> {
+        Some(self)
+    }
+}
+impl<Rd: std::io::Read> HistInput for RangeReader<Rd> {}
+
+/// Run the history against the byte model: every successful operation returns the bytes at the model position and
+/// advances by exactly its width; a refused operation (Err) is only acceptable where the model says the input has too
+/// few bytes left (or the strategy does not offer the call), and then a following read still continues at the model
+/// position for the back ends whose contract says "refused reads do not move" (slice, mmap, range);
+/// at the end the rest of the input is read byte by byte and must be exactly the rest of the data.
+fn run_history<I: HistInput>(i: &mut I, data: &[u8], ops: &[HOp], tag: &str, strict_refusal: bool) -> Result<String, Fail> {
+    let size = data.len();
+    let mut pos = 0usize;
+    let mut seen = String::new();
+    for (k, op) in ops.iter().enumerate() {
+        let left = size - pos;
+        let cls = |w: &str| format!("{tag}/{w}");
+        macro_rules! fixed {
+            ($w:expr, $call:expr, $from:expr, $name:expr) => {{
+                let r = $call;
+                if left >= $w {
+                    let g = r.map_err(|e| bad("read_err", cls($name), format!("op #{k} {:?} at {pos}/{size} (history {:?}): {e}", op, ops)))?;
+                    let want = $from(&data[pos..pos + $w]);
+                    ensure!(g == want, "value", cls($name), "op #{k} {:?} at {pos}/{size} returned {g:#x}, the input holds {want:#x} there (history {:?})", op, ops);
+                    pos += $w;
+                } else {
+                    ensure!(r.is_err(), "consumed", cls("read_past_end"), "op #{k} {:?} succeeded with {left} bytes left", op);
+                    if !strict_refusal {
+                        return Ok(format!("{seen}refused"));
+                    }
+                }
+            }};
+        }
+        match op {
+            HOp::U8 => fixed!(1, i.read_u8(), |b: &[u8]| b[0], "u8"),
+            HOp::U16 => fixed!(2, i.read_u16(), |b: &[u8]| u16::from_le_bytes([b[0], b[1]]), "u16"),
+            HOp::U32 => fixed!(4, i.read_u32(), |b: &[u8]| u32::from_le_bytes(b.try_into().unwrap()), "u32"),
+            HOp::U64 => fixed!(8, i.read_u64(), |b: &[u8]| u64::from_le_bytes(b.try_into().unwrap()), "u64"),
+            HOp::Var => {
+                // the reference decoder on the model bytes
+                let mut v = 0u64;
+                let mut n = 0usize;
+                let mut complete = false;
+                while pos + n < size && n < 10 {
+                    let b = data[pos + n];
+                    v |= ((b & 0x7F) as u64) << (7 * n);
+                    n += 1;
+                    if b & 0x80 == 0 {
+                        complete = true;
+                        break;
+                    }
+                }
+                match i.read_var_int() {
+                    Ok(g) => {
+                        ensure!(complete && g == v, "value", cls("var_int"), "op #{k} read_var_int at {pos}/{size} = {g}, the bytes there decode to {:?} (history {:?})", if complete { Some(v) } else { None }, ops);
+                        pos += n;
+                    }
+                    Err(e) => {
+                        ensure!(!complete, "read_err", cls("var_int"), "op #{k} read_var_int at {pos}/{size}: {e} (history {:?})", ops);
+                        // an incomplete var_int has consumed the rest of the input on the streaming back ends
+                        return Ok(format!("{seen}refused"));
+                    }
+                }
+            }
+            HOp::Bytes(w) | HOp::Vec(w) => {
+                let r = if matches!(op, HOp::Bytes(_)) {
+                    let mut b = vec![0x55u8; *w];
+                    i.read_bytes(&mut b).map(|_| b)
+                } else {
+                    i.read_vec(*w)
+                };
+                if left >= *w {
+                    let g = r.map_err(|e| bad("read_err", cls("bytes"), format!("op #{k} {:?} at {pos}/{size} (history {:?}): {e}", op, ops)))?;
+                    ensure!(g == data[pos..pos + w], "value", cls("bytes"), "op #{k} {:?} at {pos}/{size} returned {}, the input holds {} (history {:?})", op, brief(&g), brief(&data[pos..pos + w]), ops);
+                    pos += w;
+                } else {
+                    ensure!(r.is_err(), "consumed", cls("read_past_end"), "op #{k} {:?} succeeded with {left} bytes left", op);
+                    if !strict_refusal {
+                        return Ok(format!("{seen}refused"));
+                    }
+                }
+            }
+            HOp::Skip(w) => {
+                let r = i.skip(*w);
+                if left >= *w {
+                    r.map_err(|e| bad("read_err", cls("skip"), format!("op #{k} skip({w}) at {pos}/{size} (history {:?}): {e}", ops)))?;
+                    pos += w;
+                } else {
+                    ensure!(r.is_err(), "consumed", cls("skip_past_end"), "op #{k} skip({w}) succeeded with {left} bytes left");
+                    if !strict_refusal {
+                        return Ok(format!("{seen}refused"));
+                    }
+                }
+            }
+            HOp::Slice(w) | HOp::SliceZc(w) | HOp::Peek(w) | HOp::PeekZc(w) => {
+                let m = i.mm().expect("MemoryMappedInput history");
+                let advance = matches!(op, HOp::Slice(_) | HOp::SliceZc(_));
+                let r: zipora::Result<Vec<u8>> = match op {
+                    HOp::Slice(_) => m.read_slice(*w),
+                    HOp::SliceZc(_) => m.read_slice_zero_copy(*w).map(|s| s.to_vec()),
+                    HOp::Peek(_) => m.peek_slice(*w),
+                    _ => m.peek_slice_zero_copy(*w).map(|s| s.to_vec()),
+                };
+                match r {
+                    Ok(g) => {
+                        ensure!(left >= *w, "consumed", cls("read_past_end"), "op #{k} {:?} succeeded with {left} bytes left", op);
+                        ensure!(g == data[pos..pos + w], "value", cls(if advance { "slice" } else { "peek" }), "op #{k} {:?} at {pos}/{size} returned {}, the input holds {} (history {:?})", op, brief(&g), brief(&data[pos..pos + w]), ops);
+                        if advance {
+                            pos += w;
+                        }
+                    }
+                    Err(e) => {
+                        // only read_slice is offered by every strategy
+                        ensure!(left < *w || !matches!(op, HOp::Slice(_)), "read_err", cls("slice"), "op #{k} {:?} at {pos}/{size}: {e} (history {:?})", op, ops);
+                    }
+                }
+            }
+            HOp::Seek(sel) => {
+                let target = match sel { 0 => 0, 1 => 1, 2 => size / 2, 3 => size.saturating_sub(3), _ => size };
+                let m = i.mm().expect("MemoryMappedInput history");
+                if target <= size {
+                    m.seek(target).map_err(|e| bad("read_err", cls("seek"), format!("op #{k} seek({target}) on {size} bytes: {e}")))?;
+                    pos = target;
+                } else {
+                    ensure!(m.seek(target).is_err(), "consumed", cls("seek_past_end"), "seek({target}) succeeded on {size} bytes");
+                }
+            }
+        }
+        if let Some(p) = i.position() {
+            ensure!(p == pos as u64, "consumed", cls("position"), "after op #{k} {:?} position() = {p}, the operations so far consumed {pos} bytes (history {:?})", op, ops);
+        }
+        if let Some(p) = i.inherent_position() {
+            ensure!(p == pos, "consumed", cls("position"), "after op #{k} {:?} the reader's position is {p}, the operations so far consumed {pos} bytes (history {:?})", op, ops);
+        }
+        seen = "ok/".into();
+    }
+    // the rest of the input, byte by byte for short rests, in 4 KiB pieces + bytes for long ones
+    let mut rest = Vec::with_capacity(size - pos);
+    while size - pos - rest.len() >= 4096 {
+        let mut b = vec![0u8; 4096];
+        i.read_bytes(&mut b).map_err(|e| bad("read_err", format!("{tag}/rest"), format!("reading the rest after history {:?} at {}/{size}: {e}", ops, pos + rest.len())))?;
+        rest.extend_from_slice(&b);
+    }
+    while let Ok(b) = i.read_u8() {
+        rest.push(b);
+        if rest.len() > size - pos {
+            break;
+        }
+    }
+    ensure!(rest == data[pos..], "consumed", format!("{tag}/rest"), "after history {:?} ({pos} bytes consumed of {size}) the rest of the input reads {} ({} bytes), the input holds {} ({} bytes)", ops, brief(&rest), rest.len(), brief(&data[pos..]), size - pos);
+    Ok(format!("{seen}done"))
+}
+
+fn run_hist(c: &HCase) -> R {
+    let data = hist_bytes(c.size);
+    let tag = if c.inp == "mminput" { format!("mminput[{}]", if c.size <= 4096 { "<=4KiB" } else if c.size < (1 << 20) { "mmap" } else { ">=1MiB" }) } else { c.inp.clone() };
+    let outcome = match c.inp.as_str() {
+        "slice" => run_history(&mut from_slice(&data), &data, &c.ops, &tag, true)?,
+        "reader-cursor" => run_history(&mut from_reader(Cursor::new(data.clone())), &data, &c.ops, &tag, false)?,
+        "reader-file" => run_history(&mut ReaderDataInput::new(File::open(hist_file(c.size)).expect("open")), &data, &c.ops, &tag, false)?,
+        "mmapdata" => match zipora::io::from_file(hist_file(c.size)) {
+            Ok(mut i) => run_history(&mut i, &data, &c.ops, &tag, true)?,
+            Err(_) => return Ok(Outcome::skip("input back end refused construction")),
+        },
+        "mminput" => match MemoryMappedInput::from_path(hist_file(c.size)) {
+            Ok(mut i) => {
+                let strat = format!("{:?}", i.strategy());
+                let o = run_history(&mut i, &data, &c.ops, &tag, true)?;
+                format!("{strat}/{o}")
+            }
+            Err(_) => return Ok(Outcome::skip("input back end refused construction")),
+        },
+        "range-cursor" => {
+            let framed = [&[0xEEu8; 3][..], &data[..], &[0xDD, 0xDD][..]].concat();
+            let mut i = must(RangeReader::new_and_seek(Cursor::new(framed), 3, data.len() as u64), "construct", "range")?;
+            run_history(&mut i, &data, &c.ops, &tag, true)?
+        }
+        "reader-streambuf[2]" => {
+            let r = must(StreamBufferedReader::with_config(Cursor::new(data.clone()), small_cfg(2)), "construct", "streambuf")?;
+            run_history(&mut ReaderDataInput::new(r), &data, &c.ops, &tag, false)?
+        }
+        "reader-zerocopy[8]" => {
+            let r = must(ZeroCopyReader::with_capacity(Cursor::new(data.clone()), 8), "construct", "zerocopy")?;
+            run_history(&mut ReaderDataInput::new(r), &data, &c.ops, &tag, false)?
+        }
+        "reader-mmapzc" => match MmapZeroCopyReader::new(File::open(hist_file(c.size)).expect("open")) {
+            Ok(r) => run_history(&mut ReaderDataInput::new(r), &data, &c.ops, &tag, false)?,
+            Err(_) => return Ok(Outcome::skip("input back end refused construction")),
+        },
+        other => panic!("unknown input back end {other}"),
+    };
+    Ok(if c.ops.is_empty() { Outcome::trivial(&format!("{tag}/empty-history")) } else { Outcome::pass(&format!("{tag}/{outcome}")) })
+}
+
 pub fn register(reg: &mut Registry) {
     reg.add(fam(
         "DataIO",
@@ -644,6 +985,18 @@ pub fn register(reg: &mut Registry) {
         "file sizes straddling the 4 KiB (buffered/mmap) and 1 MiB (hugepage) strategy thresholds x 4 access patterns x positions {0,1,mid,size-8,size-1,size,size+1} x lengths {0,1,2,8,4096,8193}: seek, peek_slice(_zero_copy), read_slice(_zero_copy), read_u64, skip+read_u8",
         gen_mm,
         run_mm,
+    ));
+    reg.add(fam(
+        "DataInput/histories",
+        "one input object per case, 9 back ends (slice, std::io::Read over Cursor/File, MmapDataInput, MemoryMappedInput over files of 40 / 4096 (buffered I/O) / 4097 (mapped) bytes, RangeReader, StreamBufferedReader B=2, ZeroCopyReader cap 8, MmapZeroCopyReader) x every sequence of <=3 (thorough 4) operations from {read_u8, read_u16, read_u32, read_var_int, read_bytes(3), read_vec(2), skip(0|1|3)} over a 40-byte and a 5-byte input (most histories run out of bytes there: refused operations) whose neighbouring bytes all differ; + 3 scripts with skips of 8192/8193/10 000/16 385 bytes between reads over inputs of 20 000 and 1 MiB + 77 bytes; after every operation position(); at the end the rest of the input is read and compared",
+        gen_hist,
+        run_hist,
+    ));
+    reg.add(fam(
+        "MemoryMappedInput/histories",
+        "file sizes {0, 7, 4096 (buffered I/O), 4097, 70 000 (mapping), 1 MiB + 77 (hugepage candidate)} x every sequence of <=3 (thorough 4) operations from {read_u8, read_u32, read_slice(3), read_slice_zero_copy(2), peek_slice(4), peek_slice_zero_copy(2), skip(2|0), seek(0|1|size/2|size-3|size)} on one object; position() after every operation, refused operations do not move, the rest of the file is read at the end",
+        gen_mmhist,
+        run_hist,
     ));
     reg.add(fam(
         "MemoryMappedOutput",
